@@ -154,7 +154,7 @@ def pools(fb):
         ("X is 2^60-2^60+2", I(2), "smallbig"), ("X is 2^70-2^70", I(0), "smallbig"), ("X is 2^70-2^70+1", I(1), "smallbig"),
         ("X is 2^70-2^70-1", I(-1), "smallbig"), ("X is %d+1-1" % hi, I(hi), "smallbig"), ("X is %d-1+1" % lo, I(lo), "smallbig"),
         ("X is 1+1", I(2), "small"), ("atom_length(ab, X)", I(2), "small"), ("number_chars(X, \"2\")", I(2), "small"),
-        ("X is 3-3", I(0), "small"), ("X is %d-1+1" % hi, I(hi), "small"), ("X is %d+1-1" % lo, I(lo), "small"),
+        ("X is 3-3", I(0), "small"), ("X is %d-1+1" % hi, I(hi), "small"), ("X is %d+1-1" % lo, I(lo), "smallbig"),
         ("X is 4 rdiv 2", ("rat", 2, 1), "irat"), ("X is 2^70 rdiv 1", ("rat", 1 << 70, 1), "irat"), ("X is 1 rdiv 3", ("rat", 1, 3), "rat"),
         ("X is 1.0+0.5", F(1.5), "flt"), ("X is 0.0 * -1.0", ("flt", NEG0), "flt"), ("X is 3.0-2.0", F(1.0), "flt"), ("X is 2.0-2.0", F(0.0), "flt"),
         ("X is float(2)", F(2.0), "flt"),
@@ -218,78 +218,143 @@ def big_kind(t, tag, literal, fb):
         fits = fb[0] <= t[1] <= fb[1]
         if not fits: return "index:literal-bignum-key" if literal else "index:computed-bignum-key"
         if tag == "smallbig": return "index:computed-small-value-in-bignum-cell"
+        if literal and t[1] == fb[0]: return "index:literal-small-value-in-bignum-cell"   # written -N with N out of range: read into a bignum cell
     if t[0] == "rat" and t[2] == 1: return "index:computed-integral-rational-key"
     return None
 
 
-def failure_key(case, variant, fb):
+def is_subseq(a, b):
+    it = iter(b)
+    return all(x in it for x in a)
+
+
+def symptom(o, exp):
+    if o is None: return "no-answer"
+    if len(set(o)) < len(o): return "duplicate-answer"
+    if len(o) < len(exp) and is_subseq(o, exp): return "clause-lost"
+    if sorted(o) == sorted(exp): return "order-changed"
+    if len(o) > len(exp) and is_subseq(exp, o): return "extra-clause"
+    return "other"
+
+
+def pstr_explains(call, clauses, extra_ids):
+    """every extra clause has a head argument that is a list starting with a one-character atom (compiled as a string /
+    partial string) facing a non-list compound"""
+    def pstr(t):
+        return t[0] == "cmp" and t[1] == "." and len(t[2]) == 2 and t[2][0][0] == "atom" and len(t[2][0][1]) == 1
+    def cmpd(t):
+        return t[0] == "cmp" and not (t[1] == "." and len(t[2]) == 2)
+    byid = {c[0]: c for c in clauses}
+    return bool(extra_ids) and all(i in byid for i in extra_ids) and \
+        all(any(pstr(h) and cmpd(a) for a, h in zip(call, byid[i][1])) for i in extra_ids)
+
+
+SUFFIX = {"static": "", "dynamic": "-dynamic", "clause": "-clause", "compiled": "-compiled"}
+
+
+def call_key(case, variant, o, exp, clauses, fb, interrupted):
+    if interrupted: return "index:does-not-terminate" + SUFFIX[variant]
+    sym = symptom(o, exp)
     kinds = [big_kind(case["c1"], case["tag"], case["form"] == "literal", fb), big_kind(case["c2"], "lit", True, fb)]
     kinds = [k for k in kinds if k]
-    order = ["index:computed-small-value-in-bignum-cell", "index:computed-bignum-key", "index:computed-integral-rational-key", "index:literal-bignum-key"]
-    suffix = {"static": "", "dynamic": "-dynamic", "clause": "-clause"}[variant]
-    for k in order:
-        if k in kinds: return k + suffix
-    return "index:mismatch:%s:%s%s" % (case["form"], case["tag"], suffix)
+    if sym == "clause-lost" and kinds:
+        for k in ("index:computed-small-value-in-bignum-cell", "index:computed-bignum-key", "index:computed-integral-rational-key",
+                  "index:literal-small-value-in-bignum-cell", "index:literal-bignum-key"):
+            if k in kinds: return k + SUFFIX[variant]
+    if sym == "extra-clause" and pstr_explains([case["c1"], case["c2"], V], clauses, [i for i in o if i not in exp]):
+        return "unify:string-in-head-matches-compound" + SUFFIX[variant]
+    return "index:%s%s" % (sym, SUFFIX[variant])
+
+
+def sentinels():
+    """Fixed scenarios (always run, whatever the seed): (static/dynamic initial clauses, ops)."""
+    B, lo = 1 << 70, None
+    def c(i, a1, a2=V): return ((i, [a1, a2, I(i)]), "fact")
+    return [
+        # the design's predicate
+        {"init": [c(1, I(B)), c(2, I(2)), c(3, A("foo")), c(4, F(1.5))], "cut": 4, "ops": []},
+        # two clauses with one big key
+        {"init": [c(1, I(B)), c(2, A("foo")), c(3, I(B))], "cut": 3, "ops": []},
+        {"init": [c(1, I(-(1 << 55))), c(2, A("foo")), c(3, I(-(1 << 55)))], "cut": 3, "ops": []},
+        # retract of the first clause, then assertz of a clause that opens a new sub-sequence
+        {"init": [c(1, A("a")), c(2, A("b"))], "cut": 2, "ops": [("r", 1), ("z", c(3, V))]},
+        # asserta onto an indexed sub-sequence, then assertz of a clause that opens a new sub-sequence
+        {"init": [c(1, A("a"))], "cut": 1, "ops": [("a", c(2, A("b"))), ("z", c(3, V))]},
+        # same key: asserta, assertz, retract, assertz, assertz
+        {"init": [], "cut": 0, "ops": [("a", c(5, I(0))), ("z", c(2, I(0))), ("r", 2), ("z", c(3, I(0))), ("z", c(4, I(0)))]},
+        # dead clauses at the end of the chain, call with unbound first and non-matching second argument
+        {"init": [c(1, A("a"), A("b"))], "cut": 1, "ops": [("z", c(4, A("b"), A("a"))), ("z", c(2, A("b"), S("f", V))), ("z", c(3, A("foo"))), ("r", 3), ("r", 2)]},
+        # a partial string in a head, looked at through clause/2
+        {"init": [], "cut": 0, "ops": [("z", c(1, L([A("b")], V))), ("z", c(2, A("foo")))]},
+    ]
 
 
 def run(ctx):
     rng = ctx.rng
     fb = fix_bounds()
     heads, comp, second = pools(fb)
-    npred = ctx.scale(260, 4000)
+    npred = ctx.scale(220, 4000)
     uid = "s%dx%d" % (ctx.seed, 1 if ctx.thorough else 0)
-    preds = []
-    jobs = []
-    # the design's known failing predicate first (literal), then random ones
-    fixed = [[(I(1 << 70), V), (I(2), V), (A("foo"), V), (F(1.5), V)]]
+    preds, jobs = [], []
+    sent = sentinels()
     for n in range(npred):
         k = rng.choice([2, 3, 3, 4, 5, 6, 8])
         hot = [rng.choice(heads) for _ in range(k)]
         if rng.random() < 0.5: hot.append((V, "_"))
         if rng.random() < 0.35:   # make sure several integer keys of both sizes meet
             hot += [h for h in heads if h[0][0] == "int" and rng.random() < 0.5]
-        if n < len(fixed):
-            init = [((i + 1, [a1, a2, I(i + 1)]), "fact") for i, (a1, a2) in enumerate(fixed[n])]
-            hot = [(a1, ptxt(a1)) for a1, _ in fixed[n]]
+        if n < len(sent):
+            sc = sent[n]
+            init = list(sc["init"])
+            dyn_init = init[:sc["cut"]]
+            ops = [(o[0], o[1]) if o[0] == "r" else (o[0], o[1][0]) for o in sc["ops"]]
+            styles = {cl[0]: st for cl, st in init}
+            for o in sc["ops"]:
+                if o[0] != "r":
+                    styles[o[1][0][0]] = o[1][1]
+                    init = init + [o[1]] if n >= 3 else init
+            # the static variant of a sentinel is the final clause list of its dynamic variant
+            live = apply_ops([cl for cl, _ in dyn_init], ops)
+            if sc["ops"]:
+                init = [(cl, styles[cl[0]]) for cl in live]
         else:
             init = gen_pred(rng, heads, second, hot)
-        # dynamic variant: a (possibly empty) prefix is consulted, the rest arrives through updates, with retracts interleaved
-        cut = rng.choice([0, 0, 1, 2, len(init)])
-        dyn_init = init[:cut]
-        ops, live, nid = [], [c for c, _ in dyn_init], len(init) + 1
-        styles = {c[0]: s for c, s in init}
-        pending = list(init[cut:])
-        steps = len(pending) + rng.choice([0, 1, 2, 3, 4])
-        for _ in range(steps + 6):
-            r = rng.random()
-            if pending and r < 0.55:
-                c, s = pending.pop(0)
+            # dynamic variant: a (possibly empty) prefix is consulted, the rest arrives through updates, with retracts interleaved
+            cut = rng.choice([0, 0, 1, 2, len(init)])
+            dyn_init = init[:cut]
+            ops, live, nid = [], [c for c, _ in dyn_init], len(init) + 1
+            styles = {c[0]: s for c, s in init}
+            pending = list(init[cut:])
+            steps = len(pending) + rng.choice([0, 1, 2, 3, 4])
+            for _ in range(steps + 6):
+                r = rng.random()
+                if pending and r < 0.55:
+                    c, s = pending.pop(0)
+                    ops.append(("z", c)); live.append(c)
+                elif r < 0.75 and len(live) < 9:
+                    c, s = mk_clause(rng, nid, hot, second); nid += 1
+                    styles[c[0]] = s
+                    if rng.random() < 0.5: ops.append(("a", c)); live.insert(0, c)
+                    else: ops.append(("z", c)); live.append(c)
+                elif live and r < 0.95:
+                    c = rng.choice(live)
+                    ops.append(("r", c[0])); live = [x for x in live if x[0] != c[0]]
+                if not pending and len(ops) >= steps: break
+            for c, s in pending:
                 ops.append(("z", c)); live.append(c)
-            elif r < 0.75 and len(live) < 9:
-                c, s = mk_clause(rng, nid, hot, second); nid += 1
-                styles[c[0]] = s
-                if rng.random() < 0.5: ops.append(("a", c)); live.insert(0, c)
-                else: ops.append(("z", c)); live.append(c)
-            elif live and r < 0.95:
-                c = rng.choice(live)
-                ops.append(("r", c[0])); live = [x for x in live if x[0] != c[0]]
-            if not pending and len(ops) >= steps: break
-        for c, s in pending:
-            ops.append(("z", c)); live.append(c)
-        assert [c[0] for c in live] == [c[0] for c in apply_ops([c for c, _ in dyn_init], ops)]
-        # calls
-        calls = []
-        lit_vals = list(heads)
-        for t, x in lit_vals:
+            assert [c[0] for c in live] == [c[0] for c in apply_ops([c for c, _ in dyn_init], ops)]
+        # calls: the probe (everything unbound) first
+        calls = [{"form": "unbound", "tag": "var", "c1": V, "c2": V, "setup": None, "a1": "_", "a2": "_", "probe": True}]
+        for t, x in heads:
             c2 = rng.choice(second)
             calls.append({"form": "literal", "tag": "lit", "c1": t, "c2": c2[0], "setup": None, "a1": x, "a2": c2[1]})
         for g, t, tag in comp:
             c2 = rng.choice(second)
             calls.append({"form": g, "tag": tag, "c1": t, "c2": c2[0], "setup": g, "a1": "X", "a2": c2[1]})
-        for c2 in (second[0], rng.choice(second), rng.choice(second)):
+        for c2 in second[6:]:
             calls.append({"form": "unbound", "tag": "var", "c1": V, "c2": c2[0], "setup": None, "a1": "_", "a2": c2[1]})
-        preds.append({"n": n, "init": init, "dyn_init": dyn_init, "ops": ops, "styles": styles, "calls": calls,
-                      "compiled": rng.random() < 0.3})
+        pr = {"n": n, "init": init, "dyn_init": dyn_init, "ops": ops, "styles": styles, "calls": calls, "compiled": rng.random() < 0.3}
+        preds.append(pr)
         sname, dname = "ps%s_%d" % (uid, n), "pd%s_%d" % (uid, n)
 
         def q(name, c, how):
@@ -299,17 +364,16 @@ def run(ctx):
             else:
                 inner = "findall(Y, %s, L)" % goal
             return ("%s, %s." % (c["setup"], inner)) if c["setup"] else inner + "."
-        # static job
         stext = ":- use_module(library(lists)).\n" + "".join(clause_line(sname, c, st) for c, st in init)
         squeries = [q(sname, c, "call") for c in calls]
         comp_ix = []
-        if preds[-1]["compiled"]:
+        if pr["compiled"]:
             for j, c in enumerate(calls):
                 if c["form"] == "literal":
                     stext += "cq%s_%d_%d(L) :- findall(Y, %s(%s,%s,Y), L).\n" % (uid, n, j, sname, c["a1"], c["a2"])
                     squeries.append("cq%s_%d_%d(L)." % (uid, n, j)); comp_ix.append(j)
-        preds[-1]["comp_ix"] = comp_ix
-        jobs.append({"id": "S%d" % n, "consult": stext, "queries": squeries, "max_answers": 3, "timeout_ms": 20000, "fresh": n % 40 == 0})
+        pr["comp_ix"] = comp_ix
+        jobs.append({"id": "S%d" % n, "consult": stext, "queries": squeries, "max_answers": 3, "timeout_ms": 4000, "fresh": n % 40 == 0})
         dtext = ":- use_module(library(lists)).\n:- dynamic(%s/3).\n" % dname + "".join(clause_line(dname, c, st) for c, st in dyn_init)
         dqueries = []
         for o in ops:
@@ -317,23 +381,30 @@ def run(ctx):
             elif o[0] == "z": dqueries.append(assert_text("assertz", dname, o[1], styles[o[1][0]]))
             else: dqueries.append(retract_text(dname, o[1], styles[o[1]]))
         dqueries += [q(dname, c, "call") for c in calls] + [q(dname, c, "clause") for c in calls]
-        jobs.append({"id": "D%d" % n, "consult": dtext, "queries": dqueries, "max_answers": 3, "timeout_ms": 20000, "fresh": False})
+        jobs.append({"id": "D%d" % n, "consult": dtext, "queries": dqueries, "max_answers": 3, "timeout_ms": 2500, "fresh": False})
 
     res = core.vrun_query(ctx.prop, jobs, tag="impl")
+    # a job that follows a killed (hanging) job in its shard is dropped by the driver: run those again, each on a fresh machine
+    lost = [dict(j, fresh=True) for j in jobs if res.get(j["id"]) is None or "crash" in res.get(j["id"], {})]
+    if lost:
+        res2 = core.vrun_query(ctx.prop, lost, tag="impl2")
+        for j in lost:
+            if res2.get(j["id"]) is not None: res[j["id"]] = res2[j["id"]]
 
     def obs_list(ans):
-        """findall answer -> list of ints or None"""
+        """findall answer -> (list of ints | None, interrupted)"""
         if ans and isinstance(ans[0], dict) and "b" in ans[0] and "L" in ans[0]["b"]:
             t = ans[0]["b"]["L"]
             if "l" in t and all("i" in x for x in t["l"]):
-                return [int(x["i"]) for x in t["l"]]
-        return None
+                return [int(x["i"]) for x in t["l"]], False
+        return None, "$interrupt_thrown" in json.dumps(ans)
 
     failures, tie_breaks, reported = [], [], {}
     bools, bmeta = [], []
     evaluations = 0
     nontrivial = set()
-    dist = {"predicates": npred, "calls_by_tag": {}, "clauses_hist": {}, "ops": {"a": 0, "z": 0, "r": 0}, "answers_len": {}, "pruned_cases": 0}
+    dist = {"predicates": npred, "calls_by_tag": {}, "clauses_hist": {}, "ops": {"a": 0, "z": 0, "r": 0}, "answers_len": {}, "pruned_cases": 0,
+            "variants_compared": {"static": 0, "dynamic": 0, "clause": 0, "compiled": 0}, "variants_state_broken": {"dynamic": 0, "clause": 0}}
     samples = []
 
     def report(key, what, query, impl, spec, extra=None):
@@ -347,36 +418,56 @@ def run(ctx):
 
     def coq_cases(cs): return "[%s]" % "; ".join("([%s; %s; Var 0], [%s])" % (ctxt(c["c1"]), ctxt(c["c2"]), "; ".join("%d%%N" % x for x in o)) for c, o in cs)
 
+    def ctext(clauses): return "; ".join(ptxt(S("p", *x[1])) for x in clauses)
+
     for p in preds:
         n = p["n"]
         init = [c for c, _ in p["init"]]
         dyn_init = [c for c, _ in p["dyn_init"]]
         final = apply_ops(dyn_init, p["ops"])
+        ncalls = len(p["calls"])
         dist["clauses_hist"][len(init)] = dist["clauses_hist"].get(len(init), 0) + 1
         for o in p["ops"]: dist["ops"][o[0]] += 1
         sj, dj = res.get("S%d" % n), res.get("D%d" % n)
-        for variant, rec, clauses in (("static", sj, init), ("dynamic", dj, final), ("clause", dj, final)):
-            if rec is None or "results" not in rec:
-                tie_breaks.append({"kind": "harness", "what": "job gave no results", "detail": json.dumps(rec)[:400]})
-                continue
-            rs = rec["results"]
-            nops = len(p["ops"])
-            if variant == "static":
-                obs = rs[:len(p["calls"])]
-                src = jobs[2 * n]["queries"]
-                qtexts = src[:len(p["calls"])]
+        dq = jobs[2 * n + 1]["queries"]
+        nops = len(p["ops"])
+        setup_txt = "%s %s" % (jobs[2 * n + 1]["consult"].split("\n", 1)[1].replace("\n", " "), " ".join(dq[:nops]))
+        groups = []     # (variant, clauses, [(call, answer, query text)])
+        if sj is None or "results" not in sj:
+            tie_breaks.append({"kind": "harness", "what": "static job gave no results", "detail": json.dumps(sj)[:400]})
+        else:
+            rs = sj["results"]
+            sq = jobs[2 * n]["queries"]
+            groups.append(("static", init, list(zip(p["calls"], rs[:ncalls], sq[:ncalls]))))
+            if p["comp_ix"]:
+                groups.append(("compiled", init, [(p["calls"][j], a, "in a compiled clause body: " + sq[j]) for j, a in zip(p["comp_ix"], rs[ncalls:])]))
+        if dj is None or "results" not in dj:
+            if dj is not None and dj.get("hang"):
+                report("dynamic-update:does-not-terminate", "a call after the update sequence does not terminate and does not react to the interrupt "
+                       "(the job was killed; the looping call is one of the calls on this predicate)", setup_txt, "no termination", "every call terminates")
             else:
-                bad_ops = [jobs[2 * n + 1]["queries"][i] for i in range(nops) if not (rs[i] and (rs[i][0] == "true" or isinstance(rs[i][0], dict) and "b" in rs[i][0]))]
-                if bad_ops and variant == "dynamic":
-                    report("index:update-failed-dynamic", "an assert/retract of the update sequence did not succeed", bad_ops[0],
-                           json.dumps(rs[jobs[2 * n + 1]["queries"].index(bad_ops[0])])[:200], "true")
-                off = nops + (0 if variant == "dynamic" else len(p["calls"]))
-                obs = rs[off:off + len(p["calls"])]
-                qtexts = jobs[2 * n + 1]["queries"][off:off + len(p["calls"])]
-            cases = []
-            local_bad = []
-            for c, a, qt in zip(p["calls"], obs, qtexts):
-                o = obs_list(a)
+                tie_breaks.append({"kind": "harness", "what": "dynamic job gave no results", "detail": json.dumps(dj)[:400]})
+        else:
+            rs = dj["results"]
+            okop = lambda a: bool(a) and (a[0] == "true" or isinstance(a[0], dict) and "b" in a[0])
+            bad_ops = [i for i in range(nops) if not okop(rs[i])]
+            if bad_ops:
+                i = bad_ops[0]
+                if isinstance(rs[i][0], dict) and "panic" in rs[i][0] and dq[i].startswith("assertz") and "unreachable" in rs[i][0]["panic"]:
+                    key = "dynamic-update:assertz-after-retract-of-first-clause-panics"
+                else:
+                    key = "dynamic-update:update-failed:" + dq[i].split("(")[0]
+                report(key, "an assert/retract of the update sequence did not succeed (the calls on this predicate are not compared)",
+                       "%s %s" % (jobs[2 * n + 1]["consult"].split("\n", 1)[1].replace("\n", " "), " ".join(dq[:i + 1])), json.dumps(rs[i])[:200], "true")
+            else:
+                groups.append(("dynamic", final, list(zip(p["calls"], rs[nops:nops + ncalls], dq[nops:nops + ncalls]))))
+                groups.append(("clause", final, list(zip(p["calls"], rs[nops + ncalls:nops + 2 * ncalls], dq[nops + ncalls:nops + 2 * ncalls]))))
+        for variant, clauses, triples in groups:
+            dist["variants_compared"][variant] += 1
+            cases, local_bad = [], []
+            broken = None
+            for c, a, qt in triples:
+                o, intr = obs_list(a)
                 exp = naive(clauses, [c["c1"], c["c2"], V])
                 evaluations += 1
                 dist["calls_by_tag"][c["tag"]] = dist["calls_by_tag"].get(c["tag"], 0) + 1
@@ -384,65 +475,61 @@ def run(ctx):
                 if c["c1"][0] != "var" and len(exp) < len(clauses):
                     dist["pruned_cases"] += 1
                     nontrivial.add((variant, tuple(ptxt(x[1][0]) + "/" + ptxt(x[1][1]) for x in clauses), c["form"], c["a1"], c["a2"]))
+                if c.get("probe") and variant in ("dynamic", "clause") and o != exp:
+                    # the predicate as a whole is wrong after the updates: one report, the other calls are not attributed one by one
+                    broken = ("does-not-terminate" if intr else symptom(o, exp), o, exp, qt)
                 if o is None:
-                    report(failure_key(c, variant, fb).replace("index:mismatch", "index:no-list"), "the call did not produce a list of clause numbers",
-                           "%s   %% clauses: %s" % (qt, "; ".join(ptxt(S("p", *x[1])) for x in clauses)), json.dumps(a)[:300], str(exp))
+                    local_bad.append((c, None, exp, qt, intr, json.dumps(a)[:200]))
                     continue
                 cases.append((c, o))
-                if o != exp: local_bad.append((c, o, exp, qt))
-            if variant == "static":
+                if o != exp: local_bad.append((c, o, exp, qt, False, str(o)))
+            if variant in ("static", "compiled"):
                 expr = "check_static false [%s] %s" % ("; ".join(coq_clause(c) for c in init), coq_cases(cases))
             else:
                 opsx = "; ".join(("OpA %s" % coq_clause(o[1])) if o[0] == "a" else ("OpZ %s" % coq_clause(o[1])) if o[0] == "z" else "OpR %d%%N" % o[1] for o in p["ops"])
                 expr = "check_dynamic [%s] [%s] %s" % ("; ".join(coq_clause(c) for c in dyn_init), opsx, coq_cases(cases))
             bools.append(expr)
-            bmeta.append((p, variant, clauses, local_bad))
-            # compiled literal calls of the static variant (same model cases)
-            if variant == "static" and p["comp_ix"]:
-                cobs = rs[len(p["calls"]):]
-                ccases, cbad = [], []
-                for j, a in zip(p["comp_ix"], cobs):
-                    c = p["calls"][j]; o = obs_list(a); exp = naive(clauses, [c["c1"], c["c2"], V])
-                    evaluations += 1
-                    if o is None:
-                        report("index:no-list-compiled", "a compiled call did not produce a list", "compiled: " + qtexts[j], json.dumps(a)[:300], str(exp)); continue
-                    ccases.append((c, o))
-                    if o != exp: cbad.append((dict(c, form="literal-compiled"), o, exp, "in a compiled clause body: " + qtexts[j]))
-                bools.append("check_static false [%s] %s" % ("; ".join(coq_clause(c) for c in init), coq_cases(ccases)))
-                bmeta.append((p, variant, clauses, cbad))
-        if len(samples) < 6 and p["n"] % max(1, npred // 6) == 0 and sj and "results" in sj:
-            c = p["calls"][len(heads) + 1]
-            samples.append({"clauses": [ptxt(S("p", *x[1])) for x in init], "query": jobs[2 * n]["queries"][len(heads) + 1],
-                            "impl": json.dumps(sj["results"][len(heads) + 1])[:120], "model": str(naive(init, [c["c1"], c["c2"], V]))})
+            bmeta.append((p, variant, clauses, local_bad, broken, setup_txt))
+        if len(samples) < 6 and n >= len(sent) and n % max(1, npred // 6) == 0 and sj and "results" in sj:
+            c = p["calls"][len(heads) + 2]
+            samples.append({"clauses": [ptxt(S("p", *x[1])) for x in init], "query": jobs[2 * n]["queries"][len(heads) + 2],
+                            "impl": json.dumps(sj["results"][len(heads) + 2])[:120], "model": str(naive(init, [c["c1"], c["c2"], V]))})
 
     bad, errs = core.coq_eval_bools(ctx.prop, IMPORTS, bools, chunk=60)
     tie_breaks += [{"kind": "coq-eval", "what": "model evaluation shard failed", "detail": t} for _, t in errs]
     badset = set(bad)
-    for i, (p, variant, clauses, local_bad) in enumerate(bmeta):
-        if i in badset and not local_bad:
-            tie_breaks.append({"kind": "coq-eval", "what": "Coq reports a disagreement the Python oracle does not see (oracle and model differ)",
+    for i, (p, variant, clauses, local_bad, broken, setup_txt) in enumerate(bmeta):
+        coq_bad = i in badset
+        py_bad = any(o is not None for (_, o, _, _, _, _) in local_bad)
+        if coq_bad != py_bad and not errs:
+            tie_breaks.append({"kind": "coq-eval", "what": "the Coq model and the Python localising oracle disagree about a group of cases (coq says %s)" % ("mismatch" if coq_bad else "agreement"),
                                "detail": bools[i][:1500]})
-        if i not in badset and local_bad:
-            tie_breaks.append({"kind": "coq-eval", "what": "the Python oracle reports a disagreement Coq does not see (oracle and model differ)",
-                               "detail": bools[i][:1500]})
-        if i in badset:
-            for c, o, exp, qt in local_bad:
-                key = failure_key(c, variant, fb)
-                if c["form"] == "literal-compiled": key += "-compiled"
-                report(key, "the clauses found differ from the clauses whose heads unify with the call",
-                       "%s   %% clauses: %s" % (qt, "; ".join(ptxt(S("p", *x[1])) for x in clauses)), str(o), str(exp), {"variant": variant})
+        if not local_bad: continue
+        if broken:
+            sym, o, exp, qt = broken
+            dist["variants_state_broken"][variant] += 1
+            key = ("dynamic-update:" if variant == "dynamic" else "clause-store:") + sym
+            report(key, "after the update sequence the predicate as a whole (all arguments unbound) does not enumerate its clauses in order",
+                   "%s %s" % (setup_txt, qt), str(o), str(exp), {"variant": variant})
+            continue
+        for c, o, exp, qt, intr, shown in local_bad:
+            key = call_key(c, variant, o, exp, clauses, fb, intr)
+            pre = (setup_txt + " ") if variant in ("dynamic", "clause") else ""
+            report(key, "the clauses found differ from the clauses whose heads unify with the call",
+                   "%s%s   %% clauses: %s" % (pre, qt, ctext(clauses)), shown, str(exp), {"variant": variant})
     dist["failures_by_key"] = dict(reported)
     return {
         "evaluations": evaluations,
         "distinct_nontrivial": len(nontrivial),
         "rule": ("predicates p/3 with 1-8 clauses p(A1,A2,Id) (facts) or p(A1,A2,R) :- R = Id (rules), A1 from a per-predicate hot sub-pool of "
                  "{atoms, [], small integers, the small-integer bounds and their neighbours, 2^70, 2^70+1, -2^70, floats incl. 0.0/-0.0/1.0, "
-                 "strings, lists, partial lists, structures f/1 f/2 g/1, variables}, A2 mostly a variable; three variants: consulted static, "
-                 "dynamic (a consulted prefix, then interleaved asserta/assertz/retract, then the calls), and clause/2 on the dynamic one; "
-                 "each called with every pool value as a literal, %d run-time computed values (is/2 through bignums and rationals, atom_length, "
-                 "number_codes, atom_chars, functor, =..), and unbound; observable = findall list of clause numbers, compared in Coq with the "
-                 "model's answers. Non-trivial = distinct (variant, clause heads, call) with a bound first argument where selection matters "
-                 "(not every clause unifies)") % len(comp),
+                 "strings, lists, partial lists, structures f/1 f/2 g/1, variables}, A2 mostly a variable; variants: consulted static (plus the "
+                 "literal calls from compiled clause bodies for 30%% of the predicates), dynamic (a consulted prefix, then interleaved "
+                 "asserta/assertz/retract, then the calls), and clause/2 on the dynamic one; %d fixed scenarios first; each predicate is called "
+                 "with every pool value as a literal, %d run-time computed values (is/2 through bignums and rationals, atom_length, number_chars, "
+                 "atom_chars, functor, =..), and unbound; observable = findall list of clause numbers, compared in Coq with the model's answers "
+                 "(check_static / check_dynamic). Non-trivial = distinct (variant, clause heads, call) with a bound first argument where selection "
+                 "matters (not every clause unifies)") % (len(sent), len(comp)),
         "samples": samples,
         "distribution": dist,
         "failures": failures,
